@@ -36,7 +36,11 @@ def rows_of(B, a):
 def std_replay(body):
     """Replay = run the same body on the real library with the realised inputs."""
     def replay(B, cex):
-        res = body(B, cex['inputs'])
+        from ..harness import Reject
+        try:
+            res = body(B, cex['inputs'])
+        except Reject:
+            return False, 'counterexample outside the harness domain on replay'
         detail = ''
         if isinstance(res, tuple):
             res, detail = res[0], res[1]
